@@ -176,14 +176,40 @@ impl Storable for AnnotationDataSet {
     fn merge(&mut self, other: Self) -> Result<(), StamError> {
         let merge = self.config.merge;
         self.config.merge = true; //enable merge mode for underlying keys and data
+
+        // the data of the other set refers to its keys by handle, the keys get other handles
+        // in this set (or exist here already), so we need to translate them:
+        let mut keymap: Vec<Option<DataKeyHandle>> = Vec::with_capacity(other.keys.len());
         for key in other.keys {
-            if let Some(key) = key {
-                self.insert(key.unbind())?;
-            }
+            keymap.push(if let Some(key) = key {
+                Some(self.insert(key.unbind())?)
+            } else {
+                None
+            });
         }
         for data in other.data {
-            if let Some(data) = data {
-                self.insert(data.unbind())?;
+            if let Some(mut data) = data {
+                data.key = keymap
+                    .get(data.key.as_usize())
+                    .copied()
+                    .flatten()
+                    .ok_or(StamError::HandleError(
+                        "AnnotationDataSet::merge(): data refers to a key that does not exist",
+                    ))?;
+                let newkey = data.key;
+                // does this replace existing data with the same public ID? Then the index from keys to data has to follow
+                let replaced: Option<(DataKeyHandle, AnnotationDataHandle)> =
+                    data.id().and_then(|id| {
+                        let existing: &AnnotationData = self.get(id).ok()?;
+                        Some((existing.key, existing.handle()?))
+                    });
+                let handle = self.insert(data.unbind())?;
+                if let Some((oldkey, oldhandle)) = replaced {
+                    if oldhandle == handle && oldkey != newkey {
+                        self.key_data_map.remove(oldkey, handle);
+                        self.key_data_map.insert(newkey, handle);
+                    }
+                }
             }
         }
         self.config.merge = merge; //reset merge mode
